@@ -17,7 +17,12 @@ def split_name(path):
     return stem, ext
 
 def rand_bytes(rng, n, kind=None):
-    kind = kind or rng.choice(["rand", "rand", "zero", "ff", "ascii", "lowent"])
+    kind = kind or rng.choice(["rand", "rand", "zero", "ff", "ascii", "lowent", "text", "crlf"])
+    if kind == "text": return bytes(rng.choice(b"abc {};:\n\n\t") for _ in range(n))
+    if kind == "crlf":
+        out = bytearray()
+        while len(out) < n: out += bytes(rng.choice(b"abcxyz{}: ") for _ in range(rng.randint(0, 12))) + rng.choice([b"\r\n", b"\r\n", b"\n", b"\r"])
+        return bytes(out[:n])
     if kind == "zero": return bytes(n)
     if kind == "ff": return b"\xff" * n
     if kind == "ascii": return bytes(rng.choice(b"abc xyz\n<>&\"'\\{}") for _ in range(n))
@@ -69,6 +74,15 @@ def run_c07(pid, tier):
         for k in "FD":
             stem = rng.choice(STEMS); ext = rng.choice(EXTS); d = rng.choice(DIRS)
             hist.append([(k, d + stem + "." + ext, rand_bytes(rng, n))])
+    # (1b) text-like extensions x line-ending styles (normalising content before hashing would show here)
+    for ext in ["css", "js", "svg", "txt", "html", "htm", "json", "xml", "csv", "map", "md", "scss", "CSS", "png", "bin"]:
+        for body in [b"a{b:c}\r\nd{e:f}\r\n", b"x\ry\rz", b"x\ny\n", b"\r\n", b"\xef\xbb\xbfbom\r\n", b"tab\there  \r\n  trailing  \r\n"]:
+            k = rng.choice("FD")
+            hist.append([(k, rng.choice(DIRS) + "t." + ext, body), ("D" if k == "F" else "F", "u/v." + ext, body.replace(b"\r\n", b"\n"))])
+    # (1c) sizes around 64 KiB through both entry points (streaming / buffered reads change behaviour there)
+    for n in [65535, 65536, 65537] + ([70000] if tier == "quick" else [131072, 200000]):
+        c = rand_bytes(rng, n, "rand")
+        hist.append([("F", "big%d.bin" % n, c)]); hist.append([("D", "dbig%d.bin" % n, c)])
     # (2) the same files in different orders, directories and entry points (names must agree)
     groups = []
     for _ in range(40 if tier == "quick" else 300):
@@ -120,12 +134,12 @@ def run_c07(pid, tier):
         if len(set(vals)) != len(vals):
             oracle_fail.append((hist[i], "a single-byte change of the content did not change the name", None))
     n_cases = len(hist)
-    # (4) thorough: several-MB contents, implementation against hashlib only
-    if tier == "thorough":
+    # (4) large contents, implementation against hashlib only (the model's MD5 runs at ~40 KB/s)
+    if True:
         big = []
-        for n in [1 << 20, (1 << 22) + 3, 8 << 20]:
+        for n in ([300000] if tier == "quick" else [1 << 20, (1 << 22) + 3, 8 << 20]):
             c = os.urandom(n)
-            big.append([("D", "big.bin", c), ("D", "big2.bin", c[:-1] + bytes([c[-1] ^ 1])), ("D", "big3.bin", bytes([c[0] ^ 128]) + c[1:])])
+            big.append([("D", "big.bin", c), ("F", "fbig2.bin", c[:-1] + bytes([c[-1] ^ 1])), ("F", "d/fbig3.bin", bytes([c[0] ^ 128]) + c[1:]), ("F", "e/same.bin", c)])
         header = get_header(HARNESS)
         outs = [parse_fields(l) for l in run_capture(HARNESS, "statics", [impl_line(h) for h in big], shards=3)]
         for h, a in zip(big, outs):
@@ -210,6 +224,16 @@ def run_c08(pid, tier):
         hist.append([("D", "b%d.bin" % v, bytes([v])), ("D", "c%d.bin" % v, bytes([v, v ^ 0x5c, 0x22, v]))])
     for n in [0, 1, 2, 3, 100, 4096]:
         hist.append([("D", "len%d.x" % n, rand_bytes(rng, n, "rand")), ("F", "f/len%d.y" % n, rand_bytes(rng, n, "ascii"))])
+    # long runs of one byte (chunking / line-continuation / wrapping bugs depend on offsets) and a mixed long text
+    for v in [32, 9, 10, 13, 34, 92, 0, 255, 39, 123]:
+        hist.append([("D", "run%d.bin" % v, bytes([v]) * 5000), ("F", "f/run%d.bin" % v, bytes([v]) * 2100)])
+    hist.append([("D", "mixed.txt", (b" a\tb \n" * 900))])
+    # names with every ordered pair from a set of characters that matter to Rust literal syntax
+    PAIRCH = '"#\\\'{}$r()\n'
+    for c1 in PAIRCH:
+        for c2 in PAIRCH:
+            nm = "p%s%sq.t" % (c1, c2)
+            hist.append([("D", nm, b"d"), ("A", "src/y.js", "to/" + nm, b"a")])
     # names: every printable ASCII punctuation character in file names and url names; sampled non-ASCII
     for ch in PUNCT:
         if ch == "/": continue
@@ -256,6 +280,13 @@ def run_c08(pid, tier):
 
 # ------------------------------------------------------------------------------------------ C09
 COLLIDERS = ["a.css", "a-b.css", "ab.css", "a.b.css", "a_b.css2", "A.css", "a.CSS", "a1.css", "a.cs", "a.csss", "b-.x", "b.x", "b_.x", "0.x", "9a.x", "Z.x", "z.x", "a-1.css", "aa.css"]
+URLS_AS = ["jquery.js", "jquery/plugin.js", "jquery-ui.js", "lib-2.0.js", "lib/core.js", "lib.js", "a/b", "a-b", "a.b", "a/b/c", "a/b-c", "a",
+           "LICENSE", "CNAME", "pkg/README", "pkg/README.md", "pkg.d/x", "pkg-d", "A/b", "a/B", "a b", "a!b", "a/", "é/x.js", "é.js"]
+def as_history(rng, n):
+    urls = rng.sample(URLS_AS, n)
+    if len(set(py_ident(u) for u in urls)) < len(urls): return None
+    return [("A", "src/f%d.bin" % i, u, bytes([65 + i])) for i, u in enumerate(urls)]
+
 def run_c09(pid, tier):
     import itertools
     chk = Check(pid, tier); rng = chk.rng
@@ -276,6 +307,13 @@ def run_c09(pid, tier):
             add(list(perm))
     for _ in range(60 if tier == "quick" else 500):
         add(distinct_history(rng, rng.randint(0, 9), name_pool=COLLIDERS if rng.random() < 0.6 else None, unicode_ok=False))
+    # verbatim url names (add_file_as): path-like names next to siblings with '-' / '.', names without any dot
+    for _ in range(60 if tier == "quick" else 400):
+        h = as_history(rng, rng.randint(2, 8))
+        if h and all(u.isascii() for _, _, u, _ in h):
+            if rng.random() < 0.4: h += distinct_history(rng, 2, name_pool=COLLIDERS, unicode_ok=False)
+            ids = [py_ident(op[2]) if op[0] == "A" else hashed_ident(op[1]) for op in h]
+            if len(set(ids)) == len(ids): add(h)
     rs = run_histories(hist, probes=[[("G", p) for p in pr] for pr in probes])
     disagree = []; oracle_fail = []
     for h, r in zip(hist, rs):
@@ -394,6 +432,10 @@ def run_c20(pid, tier):
         if added and rng.random() < 0.25:
             base = rng.choice(sorted(added)); i = rng.randrange(len(base))
             if base[i] in "-._": ref = base[:i] + rng.choice("-._ !") + base[i+1:]
+        # a path that was never added whose last component (or tail) is a member
+        if added and rng.random() < 0.2:
+            base = rng.choice(sorted(added)); ref = rng.choice(["theme/", "../img/", "x/y/", "/", "./", "to/", "src/"]) + base
+            if rng.random() < 0.3 and "/" in base: ref = base.split("/", 1)[1]
         if '"' in ref or "\\" in ref: continue
         hist.append(h + [("S", "scss/m%d.scss" % len(hist), ref)])
         expect.append(added.get(ref))
